@@ -20,11 +20,20 @@ def setup(src):
     e2v.build_driver("copychunk", ["theories/Populate/CopyChunk.vo"], ["copychunk_model"])
 
 
-def make_tree(root, r):
+def make_tree(root, r, huge=False):
     """a host tree with the shapes the property lists; returns nothing (the manifest is read back with lstat)"""
     if os.path.exists(root):
         shutil.rmtree(root)
     os.makedirs(root)
+    if huge:
+        # data on both sides of the 4 GiB offset, nearly all of the file a hole
+        with open(os.path.join(root, "huge_sparse"), "wb") as f:
+            f.write(b"head" * 700)
+            f.seek((1 << 32) - 5000)
+            f.write(r.randbytes(9000))
+            f.seek((1 << 32) + 3 * 4096 + 17)
+            f.write(r.randbytes(6000))
+            f.truncate((1 << 32) + 100000)
     dirs = [root]
     for i in range(r.randint(3, 9)):
         p = os.path.join(r.choice(dirs), r.choice(["d%d" % i, "x" * r.choice([1, 40, 200, 255]) if i == 1 else "dir_%d" % i, "sp ace%d" % i]))
@@ -144,7 +153,7 @@ def host_manifest(root):
                 names = sorted(x.encode("utf-8", "surrogateescape") for x in os.listdir(p)) + ([b"lost+found"] if p == root else [])
                 ent = ("dir", m & 0o7777, st.st_uid, st.st_gid, 0, None, hashlib.sha256(b"\0".join(sorted(names))).hexdigest()[:16])
             elif stat.S_ISREG(m):
-                ent = ("file", m & 0o7777, st.st_uid, st.st_gid, st.st_size, st.st_nlink, hashlib.sha256(open(p, "rb").read() if m & 0o400 or os.geteuid() == 0 else b"").hexdigest()[:16])
+                ent = ("file", m & 0o7777, st.st_uid, st.st_gid, st.st_size, st.st_nlink, (extfmt.sparse_digest_of_file(p) if st.st_size > extfmt.BIG_FILE else hashlib.sha256(open(p, "rb").read() if m & 0o400 or os.geteuid() == 0 else b"").hexdigest()[:16]))
             elif stat.S_ISLNK(m):
                 t = os.readlink(p).encode("utf-8", "surrogateescape")
                 ent = ("symlink", 0o777, st.st_uid, st.st_gid, len(t), st.st_nlink, t.decode("latin1"))
@@ -243,7 +252,7 @@ def one_case(src, mexe, idx, seed, tier):
     r = e2v.rng(seed, "c18", idx)
     name, opts = CONFIGS[idx % len(CONFIGS)]
     root = os.path.join(WORK, "tree_%d" % idx)
-    make_tree(root, r)
+    make_tree(root, r, huge=(idx == 1 or idx % 50 == 1))
     img = os.path.join(WORK, "p_%d.img" % idx)
     env = e2v.tool_env(src, E2FSPROGS_FAKE_TIME="1700000000")
     T = lambda p: os.path.join(src, p)
